@@ -35,7 +35,7 @@ enum St {
     /// the readings of the text disagree about whether it is held: anything goes until released
     Maybe,
     /// released / manually delivered at event `group` with the link clock `clock`
-    Released { group: u64, certain: bool, clock: u64 },
+    Released { group: u64, certain: bool, clock: u64, ev: usize },
 }
 
 struct MState {
@@ -118,6 +118,9 @@ impl<'a> Model<'a> {
         let e = &self.evs[i];
         let m = links::moment(e, self.tick);
         let clock = link_clock(e, self.tick);
+        // sends per link (event sequence numbers): a send on a link between a release and this hold may
+        // already have pushed the released messages out
+        let sends: Vec<(u64, (usize, usize))> = self.msgs.values().map(|x| (self.evs[x.send].seq, pair_of(x.from, x.to))).collect();
         for ms in self.msgs.values_mut() {
             if ms.recv.is_some() || !pairs.contains(&pair_of(ms.from, ms.to)) {
                 continue;
@@ -137,9 +140,25 @@ impl<'a> Model<'a> {
                 }
                 // a released message leaves the link at the next tick of the link clock; one whose hold
                 // status was uncertain may also still be travelling with its original latency
-                St::Released { clock: r, certain, .. } => {
-                    if clock > r && (certain || links::certainly_arrived(send, self.lmax, self.tick, m)) {
-                        ms.st
+                St::Released { clock: r, certain, group, ev } => {
+                    let rel = &self.evs[ev];
+                    let p = pair_of(ms.from, ms.to);
+                    if clock > r {
+                        if certain || links::certainly_arrived(send, self.lmax, self.tick, m) {
+                            ms.st
+                        } else {
+                            St::Maybe
+                        }
+                    } else if certain
+                        // the link clock has not moved and nothing was sent on the link since the release:
+                        // the released message has not left yet, it is in flight when this hold is called
+                        && !sends.iter().any(|(q, sp)| *sp == p && *q > group && *q < e.seq)
+                        // both readings agree that the release came first (same caller, or not later in virtual time)
+                        && (rel.host == e.host || rel.t <= e.t)
+                    {
+                        ms.was_held = true;
+                        caught += 1;
+                        St::Held
                     } else {
                         St::Maybe
                     }
@@ -161,8 +180,8 @@ impl<'a> Model<'a> {
                 continue;
             }
             ms.st = match ms.st {
-                St::Held => St::Released { group: e.seq, certain: true, clock },
-                St::Maybe => St::Released { group: e.seq, certain: false, clock },
+                St::Held => St::Released { group: e.seq, certain: true, clock, ev: i },
+                St::Maybe => St::Released { group: e.seq, certain: false, clock, ev: i },
                 other => other,
             };
         }
@@ -182,11 +201,11 @@ impl<'a> Model<'a> {
             }
             let send = &self.evs[ms.send];
             ms.st = match ms.st {
-                St::Held => St::Released { group: e.seq, certain: true, clock },
+                St::Held => St::Released { group: e.seq, certain: true, clock, ev: i },
                 St::Timed if links::certainly_arrived(send, self.lmax, self.tick, m) => St::Timed,
                 St::Released { .. } => ms.st,
                 // rescheduled ahead of its latency, or uncertain: no window applies any more
-                _ => St::Released { group: e.seq, certain: false, clock },
+                _ => St::Released { group: e.seq, certain: false, clock, ev: i },
             };
         }
     }
@@ -197,9 +216,9 @@ impl<'a> Model<'a> {
         if let Some(ms) = self.msgs.get_mut(&m) {
             if ms.recv.is_none() {
                 ms.st = match ms.st {
-                    St::Held => St::Released { group: e.seq, certain: true, clock },
+                    St::Held => St::Released { group: e.seq, certain: true, clock, ev: i },
                     // delivering something that is not (certainly) held reschedules it: no window applies any more
-                    _ => St::Released { group: e.seq, certain: false, clock },
+                    _ => St::Released { group: e.seq, certain: false, clock, ev: i },
                 };
             }
         }
